@@ -181,6 +181,8 @@ def Skeleton.pinned : Skeleton where
   linkReturnsOnlyFatalSlot := true
   recoverBlocksCanonical := false
   panicSitesCanonical := true
+  ucResultsUntouched := true
+  clFreeNeverWaits := true
   ioWrappersNonBlocking := true
   errBranchesHandled := true
   locksBalanced := true
